@@ -283,16 +283,23 @@ def _call(c):
     if op == "pwm":
         from bionumpy.sequence.position_weight_matrix import PWM
         alpha = c["alpha"]
+        korder = c.get("key_order", list(range(len(alpha))))      # the order in which the caller happens to write the dict keys
         if c.get("build") == "dict":
-            d = {alpha[j]: [_unbits(row[j]) for row in c["probs"]] for j in range(len(alpha))}
-            bg = None if c.get("bg") is None else {alpha[j]: _unbits(c["bg"][j]) for j in range(len(alpha))}
+            d = {alpha[j]: [_unbits(row[j]) for row in c["probs"]] for j in korder}
+            bg = None
+            if c.get("bg") is not None:
+                bg = {alpha[j]: _unbits(c["bg"][j]) for j in c.get("bg_order", list(range(len(alpha))))}
+                for extra in c.get("bg_extra", []):
+                    bg[extra] = 0.5
+                if c.get("bg_extra_first"):
+                    bg = dict(list(bg.items())[::-1])
             pwm = PWM.from_dict(d, bg)
         elif c.get("build") == "counts":
-            pwm = PWM.from_counts({alpha[j]: [row[j] for row in c["counts"]] for j in range(len(alpha))})
+            pwm = PWM.from_counts({alpha[j]: [row[j] for row in c["counts"]] for j in korder})
         else:
             m = np.array([[_unbits(b) for b in row] for row in c["matrix"]], dtype=float).T   # (letters, w)
             pwm = PWM(m, alpha)
-        if pwm.alphabet != alpha:
+        if pwm.alphabet != "".join(alpha[j] for j in korder):
             raise AssertionError("alphabet")
         if "seq_alpha" in c:
             from bionumpy.encoded_array import as_encoded_array
@@ -898,6 +905,30 @@ def cases(tier, rng):
         for k in (2, 3):
             if n ** k <= 20000:
                 yield {"op": "count", "alpha": alpha, "rows": _rand_rows(rng, n, [9, 0, k, 40]), "k": k, "axis": rng.choice([None, -1])}
+    # 0a5. long patterns: windows that agree with the pattern on a long prefix / suffix and differ only in the rest (a fingerprint
+    #      of the window instead of its letters would call them equal), alphabets of 2^m and other sizes
+    for alpha in ("ABCDEFGH", "ABCDEFGHIJKLMNOP", "ABCDEFGHIJKLMNOPQRSTUVWXYZ012345", ALPHABETS["AMINO"], "ABCDEFGHIJKLMNOPQRSTUVWXYZ", "ACGTN"):
+        n = len(alpha)
+        for w in ((14, 17, 18, 23, 28, 31) if big else (14, 17, 23, 31)):
+            pat = [rng.randrange(n) for _ in range(w)]
+            rows = [list(pat) + [rng.randrange(n) for _ in range(3)]]
+            for j in sorted({w - 1, w - 2, 22, 16, 13, 11, w // 2} & set(range(1, w))):
+                near = list(pat)
+                for t in range(j, w):                      # same first j letters, every later letter different
+                    near[t] = (near[t] + 1 + rng.randrange(n - 1)) % n
+                rows.append([rng.randrange(n)] + near)
+                one = list(pat)
+                one[j] = (one[j] + 1 + rng.randrange(n - 1)) % n      # a single different letter at position j
+                rows.append(one + list(pat[:2]))
+            tail = list(pat)
+            tail[0] = (tail[0] + 1) % n                    # same last w-1 letters
+            rows.append(tail)
+            rows.append([])
+            base = {"alpha": alpha, "rows": rows}
+            yield dict(base, op="match", pat=pat)
+            yield dict(base, op="match", pat=pat, via="ascii")
+            yield dict(base, op="match_same", pat=pat)
+            yield _with_view(rng, dict(base, op="match", pat=pat))
     for alpha in ("ACGT", ALPHABETS["AMINO"], "ACGTN"):
         n = len(alpha)
         for lens in ([300, 0, 255, 256, 257], [70000, 3, 65536] if big or alpha == "ACGT" else [66000]):
@@ -1009,7 +1040,7 @@ def cases(tier, rng):
         if sum(lens) >= k:
             yield {"op": "kmers", "alpha": "ACGTN", "rows": _rand_rows(rng, 5, lens), "k": k, "via": "ascii"}
     # 3c. PWMs built by the package from probabilities / counts; already-encoded input whose alphabet merely starts with the PWM's
-    for _ in range(200 if big else 40):
+    for _ in range(300 if big else 80):
         alpha = rng.choice(["ACGT", "ACGT", "AB", "ABC"])
         n = len(alpha)
         w = rng.choice([1, 2, 3, 4])
@@ -1017,14 +1048,25 @@ def cases(tier, rng):
         if sum(lens) < w:
             continue
         rows = _rand_rows(rng, n, lens)
+        perm = lambda: rng.sample(range(n), n)
         if rng.random() < 0.5:
             probs = [[rng.choice([0.0, 0.1, 0.25, 0.5, 0.7, 1.0, rng.random()]) for _ in range(n)] for _ in range(w)]
-            bg = [rng.choice([0.25, 0.1, 0.5]) for _ in range(n)] if rng.random() < 0.5 else None
-            yield {"op": "pwm", "alpha": alpha, "rows": rows, "build": "dict", "probs": [[_bits(x) for x in r] for r in probs],
-                   "bg": None if bg is None else [_bits(x) for x in bg], "matrix": [[0] * n] * w}
+            bg = [rng.choice([0.25, 0.1, 0.5, 0.05, 0.4]) for _ in range(n)] if rng.random() < 0.7 else None
+            c = {"op": "pwm", "alpha": alpha, "rows": rows, "build": "dict", "probs": [[_bits(x) for x in r] for r in probs],
+                 "bg": None if bg is None else [_bits(x) for x in bg], "matrix": [[0] * n] * w}
+            if bg is not None and rng.random() < 0.7:      # the two dicts need not list the letters in the same order
+                c["bg_order"] = perm()
+                if rng.random() < 0.3:
+                    c.update(bg_extra=[rng.choice("XYZ")], bg_extra_first=rng.random() < 0.5)
+            if rng.random() < 0.4:                          # nor in the alphabet's order: sequences then come as plain text
+                c.update(key_order=perm(), via="ascii")
+            yield c
         else:
             counts = [[rng.choice([0, 0, 1, 2, 5, 17]) for _ in range(n)] for _ in range(w)]
-            yield {"op": "pwm", "alpha": alpha, "rows": rows, "build": "counts", "counts": counts, "matrix": [[0] * n] * w}
+            c = {"op": "pwm", "alpha": alpha, "rows": rows, "build": "counts", "counts": counts, "matrix": [[0] * n] * w}
+            if rng.random() < 0.4:
+                c.update(key_order=perm(), via="ascii")
+            yield c
         if alpha == "ACGT":
             yield {"op": "pwm", "alpha": alpha, "rows": rows, "matrix": _matrix(rng, n, w), "seq_alpha": "ACGTN"}
             yield {"op": "pwm", "alpha": alpha, "rows": rows, "matrix": _matrix(rng, n, w), "seq_alpha": "ACTG"}
